@@ -255,7 +255,12 @@ DReject == /\ st.dst = "rejected"
 DShake == /\ st.dst = "sent" /\ st.cd = "hs" /\ st.csock.dial = "open"
           /\ IF st.sl = "wait" /\ st.skey = "me"
                THEN Step("DShake", [st EXCEPT !.dst = "dtls", !.sl = "sctp", !.skey = "-"])
-               ELSE Step("DShakeGone", [st EXCEPT !.dst = "rejected"])
+               \* the acceptor left meanwhile: getCert fails in verifyConnection (handshake rejected), or - the certificate entry
+               \* is removed after the channel entry - verification still passes and chFromID fails: acceptLoop drops the finished
+               \* connection without closing it, the client completes its DTLS handshake and then waits for an SCTP peer that
+               \* does not exist ("dorphan"), until the deadline of its own context
+               ELSE \/ Step("DShakeGone", [st EXCEPT !.dst = "rejected"])
+                    \/ Step("DShakeDropped", [st EXCEPT !.dst = "dorphan"])
 
 DClientDone == /\ st.dst = "dtls" /\ st.cd = "hs"
                /\ Step("DClientDone", [st EXCEPT !.dst = "cdone", !.cd = "done", !.cok.dial = TRUE, !.cq = Push("dial", TRUE)])
@@ -285,7 +290,7 @@ CBind == /\ st.cl = "bind" /\ ~CDone
 \* peer learns nothing ("orphan")
 CAttemptCancel(w) ==
   /\ CDone
-  /\ \/ /\ w = "dial" /\ st.cd \in {"sock", "hs"}
+  /\ \/ /\ w = "dial" /\ st.cd \in {"sock", "hs"} /\ st.dst # "dorphan2"
         /\ Step("CAttemptCancel", [st EXCEPT !.cd = "done", !.csock.dial = IF @ = "open" THEN "closed" ELSE @, !.cq = Push("dial", FALSE),
                                              !.dst = IF @ = "dtls" THEN "orphan" ELSE @])
      \/ /\ w = "listen" /\ st.cl \in {"bind", "hs"} /\ st.lst # "sorphan"
@@ -295,6 +300,12 @@ CAttemptCancel(w) ==
 \* the client's SCTP set-up over L hits the deadline of the client's context (conn.SetDeadline(ddl))
 CListenDeadline == /\ st.cl = "hs" /\ st.lst = "sorphan" /\ st.cexp
                    /\ Step("CListenDeadline", [st EXCEPT !.cl = "done", !.csock.listen = "closed", !.cq = Push("listen", FALSE)])
+
+\* ... the client's DTLS handshake over the dropped session completes; from here on its attempt ignores cancellation
+DDroppedClientDtls == /\ st.dst = "dorphan" /\ st.cd = "hs"
+                      /\ Step("DDroppedClientDtls", [st EXCEPT !.dst = "dorphan2"])
+CDialDeadline == /\ st.cd = "hs" /\ st.dst = "dorphan2" /\ st.cexp
+                 /\ Step("CDialDeadline", [st EXCEPT !.cd = "done", !.csock.dial = "closed", !.cq = Push("dial", FALSE)])
 
 \* first := <-results
 CFirst == /\ st.cm = "w1" /\ st.cq # <<>>
@@ -316,7 +327,7 @@ Core == \/ SDnat \/ SSock \/ LSend \/ LShake \/ LClientDone \/ LStationDone \/ L
         \/ SDialDeadline \/ SReg \/ SAcceptCancel \/ SSctpExpire \/ SSctpCancel \/ SRetTimeout
         \/ \E w \in Ends : SOfferQuit(w) \/ SRecvConn(w) \/ SStatOK(w) \/ SErrQuit(w) \/ SRecvErr(w) \/ CAttemptCancel(w)
         \/ DSend \/ DReject \/ DShake \/ DClientDone \/ DStationDone \/ DPeerGone
-        \/ CDialSock \/ CBind \/ CFirst \/ CSecond \/ CListenDeadline \/ SDialCancelRace
+        \/ CDialSock \/ CBind \/ CFirst \/ CSecond \/ CListenDeadline \/ CDialDeadline \/ DDroppedClientDtls \/ SDialCancelRace
 
 SCall == /\ st.sm = "idle"
          /\ st.scr.start # "C" \/ (st.cm # "idle" /\ ~ENABLED Core)
@@ -375,7 +386,7 @@ TypeOK ==
   /\ st.skey \in {"-", "me", "foreign"} /\ st.ssock \in {"none", "open", "closed", "leaked"} /\ st.slc \in {"none", "open", "closed"}
   /\ st.cm \in {"idle", "w1", "w2ok", "w2err", "ret"} /\ st.cres \in {"-", "dial", "listen", "err"}
   /\ st.cd \in {"idle", "sock", "hs", "done"} /\ st.cl \in {"idle", "bind", "hs", "done"} /\ Len(st.cq) <= 2
-  /\ st.dst \in {"none", "sent", "rejected", "dtls", "cdone", "dead", "orphan"} /\ st.lst \in {"none", "sent", "dtls", "cdone", "dead", "orphan", "sorphan"}
+  /\ st.dst \in {"none", "sent", "rejected", "dtls", "cdone", "dead", "orphan", "dorphan", "dorphan2"} /\ st.lst \in {"none", "sent", "dtls", "cdone", "dead", "orphan", "sorphan"}
 
 \* at most one connection is handed on per call, on either side
 AtMostOneHandoff == st.shand <= 1 /\ st.chand <= 1 /\ st.proxied = st.shand
@@ -426,4 +437,29 @@ Agreement == (st.sres \in Succ /\ st.cres \in Succ) => Paired(st.sres, st.cres)
 \* liveness: both calls return and all attempts end (Connect returns once its context expired)
 Terminates == <>[](AllQuiet)
 ReturnsOnExpiry == [](st.sexp => <>(st.sm = "ret"))
+
+\* ------------------------------------------------------------------ divergences (as found vs. intended)
+\* Observed on the real code by checks/X06.py (counts in evidence_extra/X06.json); conformance is held against the as-found
+\* instance, the intended instance is what TLC additionally checks Agreement / NoSocketLeftBehind / NoLingerUntilDeadline on.
+\*  D1 agreement    Coord = "none".  client.go WrapDial keeps the first of ITS two attempts to complete, dtls.go Connect the
+\*                  first of ITS two; when both paths work the choices can differ (SRecvConn("dial") while the client returns
+\*                  its dial session, or both "listen"): each side then closes the session the other kept, both calls
+\*                  succeed, both statistics say success, nothing can flow.
+\*  D2 socket       LeakOnRefuse.  dtls.go, dial goroutine: when dtls.ClientWithContext fails with a socket error
+\*                  (ECONNREFUSED after an ICMP port unreachable: client not yet / no longer bound) the goroutine returns
+\*                  without udpConn.Close(); pion closes the socket only on cancellation or a fatal alert.  The socket (bound to
+\*                  :41245, connected to the client) lives until a garbage collection finalises it.
+\*  D3 cancellation CancelInSctp = FALSE.  pkg/dtls ClientWithContext / ServerWithContext / AcceptWithContext hand the context
+\*                  to the DTLS handshake only; the SCTP set-up afterwards (sctp.Server / AcceptStream, sctp.Client) sees only
+\*                  the context's DEADLINE.  pion's handshake select { firstErr | ctx.Done() | done } may take ctx.Done() when the
+\*                  handshake has just finished: that end fails and closes without close_notify, the other end is past its
+\*                  handshake.  Station side ("orphan"): the losing goroutine and its UDP socket stay until the deadline of the
+\*                  caller's context (5 s in handleConnectingTpReg), not until Connect returns.  Client side ("sorphan", and
+\*                  "dorphan": the listener dropped a finished session because the acceptor had left): the dialer, which waits
+\*                  for its second attempt, returns the connection it has had all along only when ITS context expires.
+\*  (statistics)    the success call is keyed by another address than AddCreatedConnecting (dial: the client's public address,
+\*                  listen and created: the registration address); NewTransport wires logAuthFail to LogOther as well
+\*                  (logOtherFail is unused); datagrams of honest sessions that reach the shared listener after the station's
+\*                  dial socket is gone (openUDP probe, retransmissions, close) are counted as AuthFail.  connStats itself is
+\*                  specified in Accounting.tla (X04).
 =============================================================================
